@@ -1,29 +1,69 @@
-import SamVerif.Props.C08
+import SamVerif.Lemmas.C13Paren
 /-!
 # C13 (part b) — parentheses leave no trace in the syntax tree
 
-Reuses the expression-parser model of C08 (`Model/Fmt.lean`: `parseE` mirrors
+Reuses the expression-parser model of C08 (`Model/Fmt.lean`: `parseTop … parseBase` mirror
 `parse_expression` … `parse_base_expression` of `source_parser.rs`; tied to the real parser by C08's
-`fmt-expr` protocol).  `parse_base_expression` returns the inner expression of `( e )` itself —
-`expr::E` has no parenthesis node — so wrapping an expression in any number of parentheses cannot
-change what the checker sees.
+`fmt-expr` protocol) and its fuel-free relations (`Lemmas/Fmt.lean`).  `parse_base_expression`
+returns the inner expression of `( e )` itself — `expr::E` has no parenthesis node — so wrapping
+an expression in parentheses, at the top or in operand position, cannot change what the checker
+sees.  This module depends on the *model and lemmas* of C08 only (not on `Props/C08.lean`); it is
+audited separately (`Audit/C13b.lean`) and reported as "not checked" when that model is mid-edit.
 -/
 namespace SamVerif.Fmt
+
+/-- **Operand position**: if `ts` is a complete expression with tree `e`, then `( ts )` followed by
+*any* continuation `T` is read by `parse_base_expression` as the tree `e` itself, continuing at `T`
+— exactly like a single atom token (`pbase_atom`).  So every enclosing parse is the parse of the
+unparenthesised operand tree. -/
+theorem paren_operand (ts : List Tok) (e : Expr) (f : Nat) (h : parseTop f ts = some (e, []))
+    (T : List Tok) : PBase (f + 1) (paren ts ++ T) e T := by
+  rw [paren_append]
+  have h1 : parseTop f (ts ++ .rp :: T) = some (e, .rp :: T) := by
+    simpa using (ext_allT T f).1 ts e [] h
+  exact pbase_paren (ptop_of_some h1)
+
+/-- …at every precedence level: `( ts ) T` parses at level `k ≥ 6` to whatever the postfix loop
+makes of the tree `e` and `T`. -/
+theorem paren_operand_level (ts : List Tok) (e e' : Expr) (f n : Nat) (k : Nat) (hk : 6 ≤ k)
+    (h : parseTop f ts = some (e, [])) (T r : List Tok) (hl : PLoop n 6 e T e' r) :
+    PLevel (f + 1 + n + 1) k (paren ts ++ T) e' r :=
+  plevel6 hk (paren_operand ts e f h T) hl
+
+/-- **Whole expression**: a complete token sequence wrapped in one more pair of parentheses parses
+to the same tree (for every sufficiently large recursion budget). -/
+theorem paren_insensitive' (ts : List Tok) (e : Expr) (f : Nat) (h : parseTop f ts = some (e, [])) :
+    ∃ n, ∀ f', n ≤ f' → parseFuel f' (paren ts) = some e := by
+  have hb := paren_operand ts e f h []
+  rw [List.append_nil] at hb
+  have h6 := plevel6 (Nat.le_refl 6) hb (ploop_stop_of (e := e) (stopsAbove_nil 0) (Nat.zero_le 6))
+  have hsb : startsBase (paren ts) := by
+    intro r; constructor <;> intro he <;> cases he
+  have hl0 := lift (Nat.le_refl 6) h6 (fun _ => hsb) 6 0 (by omega) (stopsAbove_nil 0)
+  have hnk : notKw (paren ts) := by
+    intro k r; constructor <;> intro he <;> cases he
+  have := ptop_level hl0 hnk
+  exact ⟨f + 1 + 1 + 1 + 2 * 6 + 1, fun f' hf' => by simp [parseFuel, this f' hf']⟩
 
 /-- `n` pairs of parentheses around a token sequence -/
 def parens : Nat → List Tok → List Tok
   | 0, ts => ts
-  | n + 1, ts => .lp :: (parens n ts ++ [.rp])
+  | n + 1, ts => paren (parens n ts)
 
-/-- **`paren_insensitive`** (C13 form): a complete expression wrapped in any number of redundant
-parentheses parses to the very same tree. -/
-theorem parens_insensitive (n : Nat) (ts : List Tok) (e : Expr) (h : parseE ts = some e) :
-    parseE (parens n ts) = some e := by
+/-- **`parens_insensitive`**: any number of redundant parentheses around a complete expression. -/
+theorem parens_insensitive (n : Nat) (ts : List Tok) (e : Expr) (f : Nat)
+    (h : parseFuel f ts = some e) : ∃ m, ∀ f', m ≤ f' → parseFuel f' (parens n ts) = some e := by
   induction n with
-  | zero => exact h
-  | succ n ih => exact paren_insensitive (parens n ts) e ih
+  | zero => exact ⟨f, fun f' hf' => by
+      have := parseTop_mono (parseFuel_some h) hf'
+      simp [parens, parseFuel, this]⟩
+  | succ n ih =>
+    obtain ⟨m, hm⟩ := ih
+    exact paren_insensitive' (parens n ts) e m (parseFuel_some (hm m (Nat.le_refl m)))
 
 example : parseE (parens 2 [.atom 1, .op .plus, .atom 2]) = parseE [.atom 1, .op .plus, .atom 2] := by
   decide
+example : parseE ([.atom 0, .op .mul] ++ paren [.atom 1, .op .plus, .atom 2])
+    = some (.binary .mul (.atom 0) (.binary .plus (.atom 1) (.atom 2))) := by decide
 
 end SamVerif.Fmt
